@@ -552,6 +552,11 @@ class Machine:
                 return nm
             return get_form(nm) if kind == "form" else get_frame(nm)
 
+        if name in ("append_man", "remove_man") and not isinstance(o.maneuvers, list):
+            # documented: .maneuvers is a list of Man (a lone Man given as such is wrapped)
+            self.add("maneuvers-not-a-list", f"object {i}.maneuvers is a {type(o.maneuvers).__name__}")
+            self.labels.append(name)
+            return
         try:
             if name in ("copy", "copy_form", "copy_frame", "copy_both", "copy_same"):
                 form = frame = None
@@ -893,6 +898,21 @@ def check(case):
         raise m.viols[0]
     cls = sorted(set(m.labels))
     cls.append(f"pool:{len(m.pool)}")
+    # the dimensions of the input space, one label each (evidence shows their share)
+    for i in case["init"]:
+        cls.append(f"coords-as:{i.get('coords_as', 'list')}")
+        if i["klass"] == "Orbit":
+            cls.append(f"prop:{str(i['prop']).split(':')[0]}")
+        if len(i["mans"]) == 1:
+            cls.append(f"lone-man-as:{i.get('man_as', 'list')}")
+        if i["cov"]:
+            cls.append(f"cov-as:{i['cov'].get('as', 'ndarray')}")
+    for o in case["ops"]:
+        if o.get("case", "lower") != "lower":
+            cls.append("form-name-case:" + o["case"])
+        if o["op"] == "set_coord":
+            cls.append("value-type:" + o.get("vtype", "float"))
+    cls = sorted(set(cls))
     return dict(nt=classify(case), cls=cls, ratio=m.worst)
 
 
@@ -923,6 +943,15 @@ FINDINGS = {
     "c15-pickle-cov-data-lost":
         lambda facet, case, kind, msg, data: kind == "pickle:cov-data-lost" and "pickle" in _ops(case)
         and (any(i["cov"] for i in case["init"]) or "attach_cov" in _ops(case)),
+    "c15-cov-from-integers":
+        lambda facet, case, kind, msg, data: kind == "cov-values-as-given:integers"
+        and any((i["cov"] or {}).get("as") in ("ints", "int64") for i in case["init"])
+        or kind == "cov-values-as-given:integers"
+        and any(o["op"] == "attach_cov" and o["cov"].get("as") in ("ints", "int64") for o in case["ops"]),
+    "c15-keplernum-copy-drops-tol":
+        lambda facet, case, kind, msg, data: kind == "keplernum-copy-drops-tol"
+        and any(str(x).startswith("KeplerNum:") and not str(x).endswith(":0.001")
+                for x in [i["prop"] for i in case["init"]] + [o.get("prop") for o in case["ops"]]),
     "c15-as-orbit-shares-data":
         lambda facet, case, kind, msg, data: kind in ("aliasing:as_orbit", "aliasing:as_statevector")
         and _maker_then_mutation(case, ("as_orbit", "as_statevector")),
